@@ -25,7 +25,7 @@ func mk(zero bool, chain int, h uint64, t int64, vk uint8) *vhdr.Header {
 	if zero {
 		return nil
 	}
-	return &vhdr.Header{Chain: []string{"", "A", "B"}[chain], H: h, T: t, VK: vk}
+	return &vhdr.Header{Chain: []string{"", "A", "B", "a"}[chain], H: h, T: t, VK: vk}
 }
 
 func c01Case(p pairSpec) {
@@ -70,7 +70,7 @@ func runC01(tier string, r *rng) {
 	// the complete grid of the property's quantifier (both tiers)
 	for _, tz := range []bool{false, true} {
 		for _, uz := range []bool{false, true} {
-			for _, uc := range []int{1, 2} {
+			for _, uc := range []int{1, 2, 3} { // 3: "a", differs from "A" by letter case only
 				for _, uh := range []uint64{3, 5, 6, 9} { // <, =, +1, >+1 relative to trusted height 5
 					for _, tt := range []int64{-hour, hour} {
 						for _, du := range []int64{-10 * min, 0, 10 * min} {
@@ -105,7 +105,7 @@ func runC01(tier string, r *rng) {
 	for i := 0; i < n; i++ {
 		p := pairSpec{
 			tz: r.chance(1, 12), uz: r.chance(1, 12),
-			tc: 1 + r.intn(2), uc: 1 + r.intn(2),
+			tc: 1 + r.intn(3), uc: 1 + r.intn(3),
 			th: uint64(1 + r.intn(6)), uh: uint64(1 + r.intn(9)),
 			tv: uint8(1 + r.intn(6)),
 		}
@@ -283,6 +283,19 @@ func runC02(tier string, r *rng) {
 			ks2 := make([]int, ln)
 			ks2[ln/2+1] = k
 			c02Case(6, ks2)
+		}
+	}
+	// one defect at EVERY position of a long range (an implementation that splits long ranges has seams somewhere)
+	for _, ln := range []int{64, 65, 100, 129, 256} {
+		for pos := 0; pos < ln; pos++ {
+			for _, k := range []int{kGap, kHard, kLower} {
+				if ln > 129 && k != kGap {
+					continue
+				}
+				ks := make([]int, ln)
+				ks[pos] = k
+				c02Case(6, ks)
+			}
 		}
 	}
 	for i := 0; i < n; i++ {
